@@ -721,7 +721,7 @@ func TestVerifC10EventListMemo(t *testing.T) {
 func TestVerifC10PrependRoutes(t *testing.T) {
 	r := vkit.Start(t, "C10", "prepend-routes", 100*time.Second, 400*time.Second)
 	defer r.Finish()
-	r.Rule = "Update.Prepend fed by event lists that arrive the way receivers obtain them: (a) every pair of transported (JSON, ComputeProduct) windows of older events, in both orders, with and without gaps / overlaps, combined by FlattenEventLists; (b) a single list that was verified and then had one event altered in place; onto every authentic tail [k..H]; non-trivial = distinct (tail, windows, route); oracle: Prepend succeeds => the resulting update is authentic per the independent validator and its cached product equals the product of its events; failure => tail unchanged"
+	r.Rule = "Update.Prepend fed by event lists that arrive the way receivers obtain them: (a) every pair of transported (JSON, ComputeProduct) windows of older events, in both orders, with and without gaps / overlaps, combined by FlattenEventLists; (b) a single list that was verified and then had one event altered in place; onto every authentic tail [k..H]; non-trivial = distinct (tail, windows, route); oracle: Prepend succeeds => the resulting update is authentic per the independent validator and its cached product equals the product of its events; failure => tail unchanged and still usable (witnesses at every index of its window are updated by it)"
 	rvInstallEnv(t, "C10prepend", r.Seed)
 	sk, pk := rvKeys(32, 5)
 	H := vkit.Pick(6, 8)
@@ -749,6 +749,16 @@ func TestVerifC10PrependRoutes(t *testing.T) {
 		if err != nil {
 			if fmt.Sprint(len(tail.Events), tail.Events[0].Index) != before {
 				r.Violate("C10|receiver-state-changed-on-rejection|Update.Prepend|"+route, desc, rep)
+			}
+			// ... and it must still WORK as before: whatever the refused list left in the update (cached
+			// products), witnesses at every index inside its window are still brought to its accumulator
+			for idx := int(tail.Events[0].Index) - 1; idx < int(tail.Events[len(tail.Events)-1].Index); idx++ {
+				w := world.Witness(idx, rvPrime(0))
+				var uerr error
+				if upan, _ := vkit.Guard(func() { uerr = w.Update(pk, tail) }); upan || uerr != nil || w.Verify(pk) != nil {
+					r.Violate("C10|receiver-state-changed-on-rejection|Update.Prepend|update-no-longer-usable|"+route, fmt.Sprintf("%s: after the refused Prepend a witness at index %d cannot be updated with the (authentic) update any more: %v", desc, idx, uerr), rep)
+					break
+				}
 			}
 			r.Outcome(route + ":rejected")
 			return
